@@ -1254,7 +1254,8 @@ def run_cases(run, exe, model, cases, scratch):
 
 
 def check(run):
-    st = V.standard_start(run, PROP, "coq/C14/Extract_C14.v", "props/C14/driver.ml", {"c14walk": ["props/C14/unit.cpp"]})
+    st = V.standard_start(run, PROP, "coq/C14/Extract_C14.v", "props/C14/driver.ml", {"c14walk": ["props/C14/unit.cpp"]},
+                          variant=os.environ.get("C14_VARIANT", "plain"))
     if st is None:
         return
     model, exes = st
